@@ -74,11 +74,36 @@ instance : DecidableEq (Except Err Unit) := fun a b =>
   | .ok _, .error _ => isFalse (fun h => by cases h)
   | .error _, .ok _ => isFalse (fun h => by cases h)
 
+/-! ### items and texts -/
+
+theorem committedItems_texts (t : T) : (committedItems t).map Item.text = t.texts := by
+  simp only [committedItems, List.map_map]
+  have : (Item.text ∘ fun p : Str × Nat => ({ text := p.1, id := some p.2 } : Item)) = Prod.fst := rfl
+  rw [this, List.zipIdx_map_fst]
+
+theorem committedItems_ids (t : T) :
+    (committedItems t).map Item.id = (List.range t.texts.length).map some := by
+  simp only [committedItems, List.map_map]
+  have : (Item.id ∘ fun p : Str × Nat => ({ text := p.1, id := some p.2 } : Item)) = some ∘ Prod.snd := rfl
+  rw [this, ← List.map_map, List.zipIdx_map_snd, List.range_eq_range']
+
+theorem committedItems_length (t : T) : (committedItems t).length = t.texts.length := by
+  simp [committedItems]
+
+theorem commit_texts (s : S) : (commit s).texts = (bootstrap s.cfg s.texts).texts :=
+  committedItems_texts _
+
+@[simp] theorem fresh_text (txt : Str) : (fresh txt).text = txt := rfl
+
+theorem items_map_text (s : S) : s.items.map Item.text = s.texts := rfl
+
+theorem texts_length (s : S) : s.texts.length = s.items.length := by simp [S.texts]
+
 /-- shape of every step: nothing happens, a commit, or a text change followed by the
 auto-commit -/
 theorem step_cases (s : S) (op : Op) :
     (step s op).1 = s ∨ (step s op).1 = commit s ∨
-    ∃ txts st, (step s op).1 = autoCommit { s with texts := txts, stale := st, dirty := true } ∧
+    ∃ its st, (step s op).1 = autoCommit { s with items := its, stale := st, dirty := true } ∧
       (st = true ∨ st = s.stale) ∧ (step s op).2 = .ok () := by
   cases op <;> unfold step <;> dsimp only
   all_goals repeat' split
@@ -124,26 +149,35 @@ theorem run_append (s : S) (ops ops' : List Op) : run s (ops ++ ops') = run (run
 /-- a state without uncommitted changes holds the tree of a from-scratch parse of its
 texts, and its texts are the tree's -/
 def FreshInv (s : S) : Prop :=
-  s.dirty = false → s.tree = parse s.cfg s.texts ∧ s.texts = s.tree.texts
+  s.dirty = false →
+    s.tree = parse s.cfg s.texts ∧ s.texts = s.tree.texts ∧ s.items = committedItems s.tree
 
 /-- with auto-commit on there is never an uncommitted change nor a moved checkpoint -/
 def AutoInv (s : S) : Prop := s.auto = true → s.dirty = false ∧ s.stale = false
 
 theorem commit_fresh (s : S) :
-    (commit s).tree = parse s.cfg (commit s).texts ∧ (commit s).texts = (commit s).tree.texts := by
-  refine ⟨?_, rfl⟩
+    (commit s).tree = parse s.cfg (commit s).texts ∧ (commit s).texts = (commit s).tree.texts ∧
+    (commit s).items = committedItems (commit s).tree := by
+  refine ⟨?_, commit_texts s, rfl⟩
+  rw [commit_texts]
   show bootstrap s.cfg s.texts = parse s.cfg (bootstrap s.cfg s.texts).texts
   rw [parse_eq_bootstrap, bootstrap_idempotent]
 
 theorem commit_clean (s : S) : (commit s).dirty = false ∧ (commit s).stale = false := ⟨rfl, rfl⟩
 
 theorem commit_idempotent (s : S) : commit (commit s) = commit s := by
-  simp only [commit, bootstrap_idempotent]
+  have h : bootstrap s.cfg (commit s).texts = bootstrap s.cfg s.texts := by
+    rw [commit_texts, bootstrap_idempotent]
+  have h2 : commit (commit s) = S.mk s.cfg s.auto s.width
+      (committedItems (bootstrap s.cfg (commit s).texts)) (bootstrap s.cfg (commit s).texts) false false := rfl
+  rw [h2, h]; rfl
 
 theorem init_fresh (cfg : Cfg) (auto : Bool) (width : Nat) (ls : List Str) :
     FreshInv (init cfg auto width ls) := by
   intro _
-  refine ⟨?_, rfl⟩
+  have ht : (init cfg auto width ls).texts = (parse cfg ls).texts := committedItems_texts _
+  refine ⟨?_, ht, rfl⟩
+  rw [ht]
   show parse cfg ls = parse cfg (parse cfg ls).texts
   rw [parse_eq_bootstrap, parse_eq_bootstrap, bootstrap_idempotent]
 
@@ -374,8 +408,8 @@ theorem eraseAll_length (l : List α) (idxs : List Nat) (hn : idxs.Nodup) (hb : 
 `ignore_blank_lines` is off -/
 def NoFilter (s : S) : Prop := s.auto = false ∨ s.cfg.ignoreBlank = false
 
-theorem commit_texts_noignore (s : S) (h : s.cfg.ignoreBlank = false) : (commit s).texts = s.texts :=
-  bootstrap_texts_noignore s.cfg s.texts h
+theorem commit_texts_noignore (s : S) (h : s.cfg.ignoreBlank = false) : (commit s).texts = s.texts := by
+  rw [commit_texts]; exact bootstrap_texts_noignore s.cfg s.texts h
 
 theorem autoCommit_texts (s : S) (h : NoFilter s) : (autoCommit s).texts = s.texts := by
   unfold autoCommit
@@ -558,8 +592,8 @@ theorem familyEndpoint_lt_size {t : T} (hf : Forest t) {i : Nat} (hi : i < t.siz
 /-! ## helpers for the C06 statements -/
 
 /-- texts after a successful edit when the following auto-commit does not filter -/
-theorem edited_texts (s : S) (hnf : NoFilter s) (txts : List Str) (st : Bool) :
-    (autoCommit { s with texts := txts, stale := st, dirty := true }).texts = txts :=
+theorem edited_texts (s : S) (hnf : NoFilter s) (its : List Item) (st : Bool) :
+    (autoCommit { s with items := its, stale := st, dirty := true }).texts = its.map Item.text :=
   autoCommit_texts _ hnf
 
 theorem insertPos_natCast (n idx : Nat) : insertPos n (idx : Int) = min idx n := by
@@ -600,10 +634,10 @@ theorem delete_length_forest {t : T} (hf : Forest t) (l : List Str) (i : Nat) (h
 /-- what a successful `append_to_family` step did -/
 theorem step_appendToFamily_ok (s : S) (i : Nat) (txt : Str) (ind : Int) (ai : Bool)
     (hok : (step s (.appendToFamily i txt ind ai)).2 = .ok ()) :
-    s.dirty = false ∧ i < s.texts.length ∧ ¬ (ai = true ∧ ind > 0) ∧
+    s.dirty = false ∧ i < s.items.length ∧ ¬ (ai = true ∧ ind > 0) ∧
     ∃ idx, appendIndex s.tree s.width i (familyText (indentOf s.tree i) s.width txt ind ai) = .ok idx ∧
       (step s (.appendToFamily i txt ind ai)).1
-        = autoCommit { s with texts := pyInsert s.texts idx (familyText (indentOf s.tree i) s.width txt ind ai),
+        = autoCommit { s with items := pyInsert s.items idx (fresh (familyText (indentOf s.tree i) s.width txt ind ai)),
                               stale := true, dirty := true } := by
   revert hok
   unfold step; dsimp only
@@ -749,7 +783,7 @@ theorem bootstrap_texts (cfg : Cfg) (ls : List Str) :
 theorem fresh_texts_fixed (s : S) (hd : s.dirty = false) (hinv : FreshInv s) :
     s.texts = (bootstrap s.cfg s.texts).texts := by
   have h := hinv hd
-  have h2 := h.2
+  have h2 := h.2.1
   rw [h.1, parse_eq_bootstrap] at h2
   exact h2
 
@@ -759,12 +793,16 @@ theorem auto_step_texts (s : S) (op : Op) (ha : s.auto = true) (hd : s.dirty = f
     (step s op).1.texts = (bootstrap s.cfg (step { s with auto := false } op).1.texts).texts ∧
     (step s op).2 = (step { s with auto := false } op).2 := by
   have hfix := fresh_texts_fixed s hd hinv
-  cases op <;> simp only [step]
+  have htx : ({ s with auto := false } : S).texts = s.texts := rfl
+  cases op <;> simp only [step, htx]
   all_goals repeat' split
   all_goals first
     | exact ⟨hfix, rfl⟩
-    | (simp [autoCommit, ha, commit, bootstrap_idempotent]; done)
     | exact ⟨hfix, trivial⟩
+    | (simp only [autoCommit, ha, if_true, Bool.false_eq_true, if_false, commit_texts, bootstrap_idempotent,
+        and_self]; done)
+    | (simp only [autoCommit, ha, if_true, Bool.false_eq_true, if_false, commit_texts, bootstrap_idempotent,
+        and_true]; rfl)
 
 /-! ## the list primitives commute with `List.map` (texts of a list of items) -/
 
@@ -797,5 +835,57 @@ theorem eraseAll_map (f : α → β) (l : List α) (idxs : List Nat) :
     (eraseAll l idxs).map f = eraseAll (l.map f) idxs := by
   rw [eraseAll_eq_filter, eraseAll_eq_filter, List.zipIdx_map, List.filter_map, List.map_map, List.map_map]
   rfl
+
+/-! ## object handles -/
+
+/-- `posOf` finds the first list element that is the committed object `h` -/
+theorem posOf_some {items : List Item} {h p : Nat} (hp : posOf items h = some p) :
+    p < items.length ∧ (items[p]?).map Item.id = some (some h) ∧
+    ∀ q, q < p → (items[q]?).map Item.id ≠ some (some h) := by
+  unfold posOf at hp
+  rw [List.findIdx?_eq_some_iff_getElem] at hp
+  obtain ⟨hlt, h1, h2⟩ := hp
+  refine ⟨hlt, ?_, ?_⟩
+  · simp only [List.getElem?_eq_getElem hlt, Option.map_some]
+    simpa using h1
+  · intro q hq
+    have := h2 q hq
+    simp only [List.getElem?_eq_getElem (show q < items.length by omega), Option.map_some]
+    simpa using this
+
+theorem findIdx?_committed (l : List Str) (k h : Nat) :
+    (l.zipIdx k |>.map (fun p => ({ text := p.1, id := some p.2 } : Item))).findIdx? (fun it => it.id == some h)
+      = if k ≤ h ∧ h < k + l.length then some (h - k) else none := by
+  induction l generalizing k with
+  | nil => simp
+  | cons a as ih =>
+    simp only [List.zipIdx_cons, List.map_cons, List.findIdx?_cons, ih (k + 1)]
+    by_cases hk : k = h
+    · subst hk; simp
+    · have : ((some k : Option Nat) == some h) = false := by simpa using hk
+      simp only [this]
+      by_cases h1 : k + 1 ≤ h ∧ h < k + 1 + as.length
+      · have h2 : k ≤ h ∧ h < k + (as.length + 1) := by omega
+        simp only [h1, h2, and_self, if_true, List.length_cons, Option.map_some]
+        simp only [Bool.false_eq_true, if_false]; congr 1; omega
+      · have h2 : ¬ (k ≤ h ∧ h < k + (as.length + 1)) := by omega
+        simp [h1, h2]
+
+/-- on a freshly committed list every handle below the length is at its own position -/
+theorem posOf_committed (t : T) (h : Nat) :
+    posOf (committedItems t) h = if h < t.texts.length then some h else none := by
+  unfold posOf committedItems
+  rw [findIdx?_committed]
+  simp
+
+theorem setText_texts (items : List Item) (p : Nat) (txt : Str) :
+    (setText items p txt).map Item.text = (items.map Item.text).set p txt := by
+  unfold setText
+  induction items generalizing p with
+  | nil => simp
+  | cons a as ih =>
+    cases p with
+    | zero => simp
+    | succ p => simp [ih]
 
 end Ccp.Edit
